@@ -205,7 +205,9 @@ def move_staticmethod_static_scope(source: str, preserve: Collection[str]) -> st
                 ],
                 type_params=[],
                 returns=funcdef.returns,
-                lineno=classdef.lineno - 1,
+                # Above the class and its decorators. The line above that may belong to whatever
+                # comes before the class.
+                lineno=min([classdef.lineno] + [dec.lineno for dec in classdef.decorator_list]),
                 col_offset=classdef.col_offset,
             )
             yield funcdef, None, transaction
